@@ -81,6 +81,12 @@ def make_setup(case):
             break
     else:
         shapes = [[3]] * Gs
+    if isinstance(case["seed"][-1], int) and case["seed"][-1] % 8 == 2:
+        # 0-D parameters kept 0-D (merging off): the one block shape on which dtype promotion with 0-D scalars behaves differently
+        cfg["use_merge_dims"] = False
+        shapes = [[]] + [s for s in shapes if len(s) > 0][:3] + [[]]
+        while sum(G.n_blocks(s, cfg["max_preconditioner_dim"], cfg["use_merge_dims"]) for s in shapes) < Gs:
+            shapes.append([3])
     T = rnd.randint(5, 12)
     pk, pres = G.rand_presence(rnd, len(shapes), T, kind=rnd.choice(["all", "never_one", "toggle", "random", "random", "bursts", "all_absent_steps"]))
     groups = None
@@ -236,7 +242,7 @@ def judge(torch, S, results, desc_full, counters):
                     if bid not in tw:
                         raise Violation(f"step {t + 1}: rank {r} produced an update for block {bid} that the serial optimizer does not update", step=t + 1, kind="update_set", **desc)
                     if not beq(u, tw[bid]):
-                        raise Violation(f"step {t + 1}: the update of block {bid} computed by its owner (rank {r}) differs from the serial optimizer's update for the same state", step=t + 1, rank=r, kind="owner_update", max_abs_diff=float((u.double() - tw[bid].double()).abs().max()), owner_update=[float(x) for x in u.double().flatten()[:8]], serial_update=[float(x) for x in tw[bid].double().flatten()[:8]], **desc)
+                        raise Violation(f"step {t + 1}: the update of block {bid} computed by its owner (rank {r}) differs from the serial optimizer's update for the same state", step=t + 1, rank=r, kind="owner_update", max_abs_diff=float((u.double() - tw[bid].double()).abs().max()), max_rel_diff=float(((u.double() - tw[bid].double()).abs() / (tw[bid].double().abs() + 1e-300)).max()), owner_update=[float(x) for x in u.double().flatten()[:8]], serial_update=[float(x) for x in tw[bid].double().flatten()[:8]], **desc)
                     owners.setdefault(bid, set()).add(r % S["G"])
                     counters["owner_updates_compared"] += 1
         for bid in (tw if not multi else ()):
@@ -253,7 +259,7 @@ def judge(torch, S, results, desc_full, counters):
                     known_hits.append({"step": t + 1, "param": j, "max_abs_diff": float((a.double() - b.double()).abs().max())})
                     continue
                 if not beq(a, b):
-                    raise Violation(f"step {t + 1}: parameter {j} under DDP differs from the serial optimizer although communication is exact", step=t + 1, param=j, kind="serial_mismatch", max_abs_diff=float((a.double() - b.double()).abs().max()), **desc)
+                    raise Violation(f"step {t + 1}: parameter {j} under DDP differs from the serial optimizer although communication is exact", step=t + 1, param=j, kind="serial_mismatch", max_abs_diff=float((a.double() - b.double()).abs().max()), max_rel_diff=float(((a.double() - b.double()).abs() / (b.double().abs() + 1e-300)).max()), **desc)
             counters["serial_bitwise_steps"] += 1
         else:
             # (iii) reduced precision: new parameter == W_old + cast(u) / cast(W_old + u) with u the serial update
@@ -271,7 +277,7 @@ def judge(torch, S, results, desc_full, counters):
                     view.copy_((view.to(acc) + u.to(comm_dt).to(acc)).to(view.dtype))
             for j, (a, b) in enumerate(zip(r0["params"][t], exp)):
                 if not beq(a, b):
-                    raise Violation(f"step {t + 1}: parameter {j} is not W_old + round_{S['comm']}(update) ({'parameters' if S['communicate_params'] else 'updates'} communicated): DDP deviates from serial by more than the rounding of the communicated quantity", step=t + 1, param=j, kind="rounding_model", max_abs_diff=float((a.double() - b.double()).abs().max()), **desc)
+                    raise Violation(f"step {t + 1}: parameter {j} is not W_old + round_{S['comm']}(update) ({'parameters' if S['communicate_params'] else 'updates'} communicated): DDP deviates from serial by more than the rounding of the communicated quantity", step=t + 1, param=j, kind="rounding_model", max_abs_diff=float((a.double() - b.double()).abs().max()), max_rel_diff=float(((a.double() - b.double()).abs() / (b.double().abs() + 1e-300)).max()), **desc)
             counters["rounding_model_steps"] += 1
         # a step where every rank of every group contributed
         contrib = [sum(len(rec) for rec in results[r]["u_ddp"][t]) for r in range(W)]
@@ -344,6 +350,7 @@ def run_case(case):
         except Violation as v:
             v.witness.pop("_geometry", None)
             v.witness.pop("_known_hits", None)
+            v.partial = {"counters": counters}
             raise
     if known_all:
         v = Violation("0-D parameter of a 16-bit dtype communicated in the same 16-bit dtype: DDP differs from the serial optimizer although the communication dtype is as precise as the parameter (the update of a 0-D block is carried in float32 and rounded by the communication)", kind="zero_dim_update_wider_than_comm", hits=known_all[:5], **desc)
